@@ -727,6 +727,60 @@ func init() {
 						}
 					}
 				}
+				// several openings of the same tree verified by ONE chip in ONE circuit, the last one
+				// optionally corrupted: verdict = conjunction of the individual verdicts
+				for variant := 0; variant < 2; variant++ {
+					type op struct {
+						leaf []ref.F
+						low  uint64
+						cidx uint64
+						sib  []fr.Element
+					}
+					var ops []op
+					lowBits := h - 4
+					for k := 0; k < 5; k++ {
+						idx := idxs[r.Intn(len(idxs))]
+						ops = append(ops, op{append([]ref.F(nil), leaves[idx]...), uint64(idx) & (1<<uint(lowBits) - 1), uint64(idx) >> uint(lowBits), tree.Prove(idx)})
+					}
+					if variant == 1 {
+						last := &ops[len(ops)-1]
+						last.leaf[r.Intn(w)] = ref.Add(last.leaf[r.Intn(w)], 1)
+						k := r.Intn(w)
+						last.leaf[k] = ref.Add(leaves[idxs[0]][k], 7)
+					}
+					wantAll := true
+					for _, p := range ops {
+						d, _ := ref.MerkleFold(p.leaf, p.low, p.sib)
+						if !d.Equal(&tree.Cap[p.cidx]) {
+							wantAll = false
+						}
+					}
+					res := harnRunOpt(engine.Options{Face: engine.Native}, func(api frontend.API) error {
+						cd := types.CommonCircuitData{}
+						fc := fri.NewChip(api, &cd, &cd.FriParams)
+						mc := make(variables.FriMerkleCap, 16)
+						for i := range mc {
+							mc[i] = frBig(tree.Cap[i])
+						}
+						for _, p := range ops {
+							lv := make([]gl.Variable, len(p.leaf))
+							for i := range p.leaf {
+								lv[i] = gl.NewVariable(p.leaf[i])
+							}
+							mp := variables.FriMerkleProof{}
+							for _, sb := range p.sib {
+								mp.Siblings = append(mp.Siblings, frBig(sb))
+							}
+							fc.VerifMerkle(lv, bitsOf(p.low, lowBits), bitsOf(p.cidx, 4), mc, &mp)
+						}
+						return nil
+					})
+					o.Events += events(res) + len(ops)
+					if acc := res.Verdict == engine.Accept; acc != wantAll {
+						return fw.Violate("merkle_sequence_verdict_differs", fmt.Sprintf("height %d width %d: five openings on one chip, circuit %s, reference all-valid=%v", h, w, resStr(res), wantAll))
+					}
+					o.Inc("opening_sequences_checked")
+				}
 				o.Sample = map[string]any{"height": h, "width": w, "indices": len(idxs)}
 				return o
 			},
